@@ -4,11 +4,13 @@ CONSTANTS
   NV = 1
   NA = 0
   Kinds = {"ArrayView", "OwnedArray", "FixedArray", "FixedArrayView"}
-  Modes = {"default", "src", "ptr", "wptr", "size", "copy", "fview"}
+  Modes = {"default", "src", "ptr", "wptr", "size", "copy", "move", "fview"}
   Acts = {"Construct", "Assign", "Reset", "ResetPtr", "Resize", "Write", "Destroy", "SrcMake", "SrcWrite", "SrcResize", "SrcDestroy"}
+  Sizes = {0, 1, 2}
   MaxLen = 2
   ArrLen = 2
   PtrSel = "few"
+  Palettes = {0}
   Sym = TRUE
   Excl = {}
   Variant = "fixed_assign_frees_viewed"
